@@ -116,6 +116,16 @@ def chunk_rule(prog, rep):
     rets = [n for n in fi.node.body if isinstance(n, ast.Return)]
     acc = norm(rets[0].value) if rets else None
     rep.check(norm(lp.iter) == fi.params[0], "SUM", fi.short, "iteration", "over the input in order", f"iterates over `{norm(lp.iter)}`", fi.loc(lp))
+    # an event is left out of every chunk only when it does not bear the key
+    from ..cfg import cfg_of, membership
+
+    g = cfg_of(fi)
+    key0 = fi.params[1]
+    exits = [n for n in ast.walk(lp) if isinstance(n, (ast.Break, ast.Continue, ast.Return))]
+    if lp.body:
+        reach = g.reach_filtered(g.node_of(lp.body[0]), lambda u, v, lab: membership(lab, key0, f"{ev}.data") is not False)
+        for x in exits:
+            rep.check(g.node_of(x) not in reach, "SUM", fi.short, f"{type(x).__name__.lower()} at line {x.lineno}", f"only under `{key0} not in {ev}.data`", f"the loop is left / an event is skipped (line {x.lineno}) on a path where the event does bear the key (e.g. a falsy value such as '' or 0): the remaining key-bearing events never reach a chunk, so sub-events no longer concatenate back to the input", fi.loc(x))
     ifs = [n for n in lp.body if isinstance(n, ast.If) and n.orelse and "subevents" in norm(n)]
     if len(ifs) != 1:
         rep.undecided("SUM", fi.short, "extend/open dispatch", f"{len(ifs)} if/else in the loop body", fi.loc(lp))
@@ -236,6 +246,8 @@ VARIANTS = [
     ("B in-place sort", S, "    return sorted(events, key=lambda e: e.timestamp)", "    events.sort(key=lambda e: e.timestamp)\n    return events", ["PURE", "SHAPE"]),
     ("B limit drops first", S, "return events[:count]", "return events[1:count]", "SHAPE"),
     ("B exclude not complementary", FK, "return [e for e in events if not predicate(e)]", "return [e for e in events if key not in e.data]", "SHAPE"),
+    ("B chunking stops at a falsy value", CH, "        if key not in event.data:\n            break", "        if not event.data.get(key):\n            break", "SUM"),
+    ("B chunking skips events with a None value", CH, "        if key not in event.data:\n            break", "        if key not in event.data:\n            break\n        if event.data[key] is None:\n            continue", "SUM"),
     ("OK positional key with else branch", M, "                composite_key = composite_key + ((key, val),)\n", "                composite_key = composite_key + (val,)\n            else:\n                composite_key = composite_key + (None,)\n", "ok"),
     ("OK augmented key extension", M, "composite_key = composite_key + ((key, val),)", "composite_key += ((key, val),)", "ok"),
 ]
